@@ -97,8 +97,8 @@ func registerHarnessIntrinsics() {
 		},
 		"verifDependsOn":  hDependsOn,
 		"verifUF":         hUF,
-		"verifUFv":       hUFv,
-		"verifHTTP":      hHTTP,
+		"verifUFv":        hUFv,
+		"verifHTTP":       hHTTP,
 		"verifHTTPStatus": func(e *Exec, a []Value, s *ssa.CallCommon) Value { return e.httpOf(a[0]).status },
 		"verifHTTPSets": func(e *Exec, a []Value, s *ssa.CallCommon) Value {
 			st := e.httpOf(a[0])
